@@ -185,12 +185,26 @@ def blocked(r):
     return bool(r.get("timeout") or any(l and l[0] == "WATCHDOG" for l in r["lines"]))
 
 
+_confirmed = {}
+
+
+def confirm_blocked(ops, stats, cls):
+    """A wall-clock watchdog fired while 16 sessions ran side by side: re-run the history alone with a long limit before calling it blocked.
+    At most two confirmations per class of history (cls): further members of a confirmed class are reported under the same finding."""
+    n = _confirmed.get(cls, 0)
+    if n >= 2:
+        return None
+    r = execute(ops, watchdog=90)
+    stats["watchdog_reruns"] = stats.get("watchdog_reruns", 0) + 1
+    if blocked(r):
+        _confirmed[cls] = n + 1
+    return r
+
+
 def analyse(ck, hist, op, kind, comp, r, stats):
     """returns True if the transition behaved"""
     if blocked(r):
-        # a wall-clock watchdog fired while 16 sessions ran side by side: re-run this history alone with a long limit before calling it blocked
-        r = execute(hist + [op] + comp, watchdog=150)
-        stats["watchdog_reruns"] = stats.get("watchdog_reruns", 0) + 1
+        r = confirm_blocked(hist + [op] + comp, stats, op) or r
     where = "after [%s]" % " ".join(hist)
     rep = {"history": hist, "op": op, "completion": comp}
     res = {}
@@ -306,8 +320,7 @@ def reject_sweep(ck, tier, stats):
     for (e, v), r in res:
         hist, op, comp = ["IH"], spx(e, v), ["SP", "DEINIT", "DH"]
         if blocked(r):
-            r = execute(hist + [op] + comp, watchdog=150)
-            stats["watchdog_reruns"] = stats.get("watchdog_reruns", 0) + 1
+            r = confirm_blocked(hist + [op] + comp, stats, "SPX:" + e.split("=")[0].split(".")[0]) or r
         seq = [(l[0], int(l[1])) for l in r["lines"] if l and l[0] not in ("PACKET", "END", "WATCHDOG", "SIGNAL") and len(l) > 1]
         rc = seq[1][1] if len(seq) > 1 else None
         is_rej = rc is not None and rc != ERR_NONE
@@ -324,8 +337,7 @@ def reject_sweep(ck, tier, stats):
     for (e, v), r in res2:
         hist, op, comp = ["IH"], spx(e, v), ["SP", "IN", "SEND", "EOS", "DRAIN", "DEINIT", "DH"]
         if blocked(r):
-            r = execute(hist + [op] + comp, watchdog=150)
-            stats["watchdog_reruns"] = stats.get("watchdog_reruns", 0) + 1
+            r = confirm_blocked(hist + [op] + comp, stats, "SPX:" + e.split("=")[0].split(".")[0]) or r
         seq = [(l[0], int(l[1])) for l in r["lines"] if l and l[0] not in ("PACKET", "END", "WATCHDOG", "SIGNAL") and len(l) > 1]
         judge_after_reject(ck, e, hist, op, comp, r, seq, seq[1][1] if len(seq) > 1 else None)
     return {"probed": len(res), "enumerated": len(items), "rejected": rejected, "elements": len(elems), "elements_with_rejection": len(per_elem),
